@@ -19,6 +19,13 @@ func (m *Mutex) Lock() {
 	}
 }
 
+func (m *Mutex) TryLock() bool {
+	if h, got := mcrt.MuTryLock(m, false); h {
+		return got
+	}
+	return m.real.TryLock()
+}
+
 func (m *Mutex) Unlock() {
 	if !mcrt.MuUnlock(m) {
 		m.real.Unlock()
@@ -33,6 +40,20 @@ func (m *RWMutex) Lock() {
 	if !mcrt.RWLock(m) {
 		m.real.Lock()
 	}
+}
+
+func (m *RWMutex) TryLock() bool {
+	if h, got := mcrt.MuTryLock(m, false); h {
+		return got
+	}
+	return m.real.TryLock()
+}
+
+func (m *RWMutex) TryRLock() bool {
+	if h, got := mcrt.MuTryLock(m, true); h {
+		return got
+	}
+	return m.real.TryRLock()
 }
 
 func (m *RWMutex) Unlock() {
